@@ -11,6 +11,7 @@ import Driver.Cow
 import Driver.Sweep2
 import Driver.Export
 import Driver.Progress
+import Driver.Bool3
 /-! `mvdriver`: reads one request per line on stdin, prints one answer per line.
 First token = engine. -/
 
@@ -29,6 +30,7 @@ def dispatch (line : String) : String :=
   | "sweep2" :: rest => Sweep2.handle rest
   | "export" :: rest => ExportDrv.handle rest
   | "progress" :: rest => ProgressDrv.handle rest
+  | "bool3" :: rest => Bool3Drv.handle rest
   | _ => "bad-engine"
 
 partial def loop (h : IO.FS.Stream) (out : IO.FS.Stream) : IO Unit := do
